@@ -52,13 +52,91 @@ def plan(tier, seed):
             for s in ((0, 42) if tier == "thorough" else (42,)):
                 jobs.append(("pools", prog, s, ch, 3, tier, 30000 if prog == "assemble" else 15000))
     jobs.append(("labels", 300, 1))
+    for prog in ("assemble", "call", "call-exact", "call-pedigree"):
+        jobs.append(("inputspec", prog, seed, 25000))
     jobs.sort(key=lambda j: -j[-1])
     return jobs
 
 
 def run_job(job):
     env.quiet()
-    return {"subsets": job_subsets, "multibam": job_multibam, "pools": job_pools, "labels": job_labels}[job[0]](job)
+    return {"subsets": job_subsets, "multibam": job_multibam, "pools": job_pools, "labels": job_labels, "inputspec": job_inputspec}[job[0]](job)
+
+
+def job_inputspec(job):
+    """the same alignment files named in the four documented ways (paths on the command line; a text file of paths; a text file of sample<TAB>path pairs;
+    sample identity taken from the read-group ID instead of SM) and per-sample parameter files with their lines in any order give the same records:
+    a sample's column depends on its reads and its own parameters, not on how the files were listed"""
+    import os
+
+    _, prog, seed, _ = job
+    r = Result()
+    payload = {"kind": "job", "job": job}
+    d = env.scratch_dir("c10i")
+    D = stddata.Data(d)
+    bed = D.bed_subset(["L1", "L5", "L3", "L7"], "sub.bed")
+    hv = D.save_vcf(stddata.run(D.assemble_args(bed=bed)), "asm_in.vcf") if prog != "assemble" else None
+    env.quiet()
+    ped_extra = D.pedigree_files() if prog == "call-pedigree" else []
+
+    def run(bam_args, ploidy_file, extra=()):
+        if prog == "assemble":
+            argv = D.assemble_args(bed=bed, report=["AFP", "GL"], extra=["--mcmc-seed", "5"] + list(extra))
+        else:
+            argv = D.call_args(prog, hv, report=["AFP", "GL"], extra=(["--mcmc-seed", "5"] if prog != "call-exact" else []) + ped_extra + list(extra))
+        i, j = argv.index("--bam"), argv.index("--reference")
+        argv = argv[: i + 1] + list(bam_args) + argv[j:]
+        argv[argv.index("--ploidy") + 1] = ploidy_file
+        out = stddata.run(argv)
+        env.quiet()
+        return vcfparse.parse(out)
+
+    def write(name, rows):
+        p = os.path.join(D.dir, name)
+        with open(p, "w") as f:
+            for row in rows:
+                f.write("\t".join(str(x) for x in row) + "\n")
+        return p
+
+    order = ["S2", "S3", "S1"]  # not sorted, not the order of any parameter file
+    paths = [D.bams[s_] for s_ in order]
+    plo = write("plo_a.txt", [(s_, stddata.PLOIDY[s_]) for s_ in ("S3", "S1", "S2")])
+    try:
+        base = run(paths, plo)
+    except Exception as e:  # noqa
+        e = synth.root_cause(e)
+        r.violation("inputspec-exception|%s|baseline" % prog, "%s: %s" % (type(e).__name__, str(e)[:200]), payload)
+        return r
+    variants = {
+        "list-file": (lambda: run([write("bams.txt", [(p_,) for p_ in paths])], plo)),
+        "pairs-file": (lambda: run([write("pairs.txt", list(zip(order, paths)))], plo)),
+        "ploidy-file-line-order": (lambda: run(paths, write("plo_b.txt", [(s_, stddata.PLOIDY[s_]) for s_ in ("S1", "S2", "S3")]))),
+    }
+    if prog != "call-pedigree":
+        variants["read-group-ID"] = (lambda: run(paths, write("plo_rg.txt", [(stddata.RG[s_], stddata.PLOIDY[s_]) for s_ in ("S3", "S1", "S2")]), ["--read-group-field", "ID"]))
+    for name, fn in variants.items():
+        r.evaluations += 1
+        r.nontrivial += 1
+        try:
+            hdr, samples, recs = fn()
+        except Exception as e:  # noqa
+            e = synth.root_cause(e)
+            r.violation("inputspec-exception|%s|%s" % (prog, name), "%s: %s" % (type(e).__name__, str(e)[:200]), payload)
+            env.quiet()
+            continue
+        want_names = [stddata.RG[s_] for s_ in order] if name == "read-group-ID" else order
+        if samples != want_names or base[1] != order:
+            r.violation("inputspec-columns|%s|%s" % (prog, name), "sample columns %r (baseline %r), files were listed as %r" % (samples, base[1], want_names), payload)
+            continue
+        a = [x["line"] for x in base[2]]
+        b = [x["line"] for x in recs]
+        if a != b:
+            k = next((i for i, (x, y) in enumerate(zip(a, b)) if x != y), min(len(a), len(b)))
+            r.violation("inputspec-records|%s|%s" % (prog, name), "records differ from the run with the files on the command line; first difference at record %d:\n%s\n%s" % (
+                k, a[k][:300] if k < len(a) else None, b[k][:300] if k < len(b) else None), payload)
+        r.outcome((prog, name, len(recs)))
+    r.sample({"input_specifications": sorted(variants), "program": prog, "bam_order": order}, cap=1)
+    return r
 
 
 def loci_names(tier):
